@@ -99,45 +99,46 @@ type Obligation struct {
 
 // FuncCtx is the per-function verification context.
 type FuncCtx struct {
-	eng          *Engine
-	key          string
-	decl         *ast.FuncDecl
-	contract     *Contract
-	decls        []string
-	nfresh       int
-	obls         []*Obligation
-	props        []string
-	loopOrd      map[ast.Node]int
-	entry        *State
-	results      []*types.Var // result variables (named or synthesised)
-	resNames     map[string]int
-	paramAlias   map[string]*types.Var // header name -> real var
-	paths        int
-	inlineDepth  int
-	heapLocals   map[*types.Var]bool
-	limit        string
-	lets         map[string]*Val
-	obligSeq     map[string]int
-	coverSeq     int
-	declared     map[string]bool
-	mapOwned     map[*types.Var]bool
-	params       map[*types.Var]bool
-	noVariant    []string
-	curDecl      *ast.FuncDecl
-	specEnv      map[string]*Val
-	unfoldFacts  []string
-	paramList    []paramInfo
-	keySorts     map[string]string
-	curCallArgs  []ast.Expr
-	ghostStack   []map[string]*Val
-	pendingWB    []writeBack
-	observed     map[string]bool
-	callOrd      map[*ast.CallExpr]int
-	inAtCall     bool
-	loopEntry    *State
-	coveredLoops map[int]bool
-	lastVariadic []*Val
-	noMerge      bool
+	eng           *Engine
+	key           string
+	decl          *ast.FuncDecl
+	contract      *Contract
+	decls         []string
+	nfresh        int
+	obls          []*Obligation
+	props         []string
+	loopOrd       map[ast.Node]int
+	entry         *State
+	results       []*types.Var // result variables (named or synthesised)
+	resNames      map[string]int
+	paramAlias    map[string]*types.Var // header name -> real var
+	paths         int
+	inlineDepth   int
+	heapLocals    map[*types.Var]bool
+	limit         string
+	lets          map[string]*Val
+	obligSeq      map[string]int
+	coverSeq      int
+	declared      map[string]bool
+	mapOwned      map[*types.Var]bool
+	params        map[*types.Var]bool
+	noVariant     []string
+	curDecl       *ast.FuncDecl
+	specEnv       map[string]*Val
+	unfoldFacts   []string
+	paramList     []paramInfo
+	keySorts      map[string]string
+	curCallArgs   []ast.Expr
+	ghostStack    []map[string]*Val
+	pendingWB     []writeBack
+	observed      map[string]bool
+	callOrd       map[*ast.CallExpr]int
+	inAtCall      bool
+	specPostDepth int
+	loopEntry     *State
+	coveredLoops  map[int]bool
+	lastVariadic  []*Val
+	noMerge       bool
 }
 
 type State struct {
